@@ -1,6 +1,7 @@
 package main
 
 import (
+	"go/constant"
 	"fmt"
 	"go/token"
 	"go/types"
@@ -131,6 +132,43 @@ func checkC07(c *Ctx) {
 				decoders = append(decoders, uy)
 				RequireFacts(c, p, "C07.guard", uy, AcceptNilErr, nil, []Req{sqrt})
 				RequireFacts(c, p, "C07.guard", uy, AcceptNilErr, boolParamFalse(uy), []Req{{"InSubgroup", patSubgroup}})
+			}
+			// the zero-padding test of an infinity encoding covers the whole encoding of *this*
+			// group: the slice handed to isZeroed ends at SizeOf<G>Compressed / Uncompressed
+			{
+				sizes := map[int64]bool{}
+				if pkgT := p.ByPath[modPath+"/"+pk]; pkgT != nil && pkgT.Types != nil {
+					for _, suf := range []string{"Compressed", "Uncompressed"} {
+						if cn, ok := pkgT.Types.Scope().Lookup("SizeOf" + g + suf).(*types.Const); ok {
+							if v, exact := constant.Int64Val(cn.Val()); exact {
+								sizes[v] = true
+							}
+						}
+					}
+				}
+				for _, dfn := range []*ssa.Function{sb, p.Func(pk, g, "unsafeSetCompressedBytes")} {
+					if dfn == nil || len(sizes) == 0 {
+						continue
+					}
+					for _, b := range dfn.Blocks {
+						for _, in := range b.Instrs {
+							call, ok := in.(*ssa.Call)
+							if !ok || calleeOf(&call.Call).Name != "isZeroed" || len(call.Call.Args) != 2 {
+								continue
+							}
+							sl, ok := call.Call.Args[1].(*ssa.Slice)
+							if !ok || sl.High == nil {
+								continue
+							}
+							h, isConst := constInt(sl.High)
+							if !isConst {
+								continue
+							}
+							c.Ob("C07.guard", pk, funcKey(dfn), fmt.Sprintf("zero-padding-covers-encoding(%s)", p.Pos(call.Pos())), p.Pos(call.Pos()), sizes[h],
+								fmt.Sprintf("%s: the zero-padding test of the infinity encoding stops at byte %d, which is not the size of a %s encoding: the bytes after it are not looked at and a non-canonical infinity is accepted", funcKey(dfn), h, g))
+						}
+					}
+				}
 			}
 			checkSetterDef(c, p, eff, "C07.def", sb)
 		}
